@@ -292,7 +292,12 @@ def judgeRow (cfg : Cfg) (run : Nat) (th : Theme) (st : SpecSt) (o : DrawObs) (w
           if !fitsCheck cwD raws tcells then throw s!"row{r}:text-fits-but-is-not-shown-in-full-with-its-highlight"
         else
           if !clippedCheck cwD base (extend base hl) raws tcells then
-            throw s!"row{r}:not-a-contiguous-run-of-the-text-with-dots-on-the-cut-sides"
+            -- a row left entirely blank although the text is cut (it was scrolled out of the window) is one specific, recorded
+            -- finding; every other unmarked cut, wrong run or misplaced dot is reported as such
+            if allBlank tcells && clippedCheckWith false cwD base (extend base hl) raws tcells then
+              throw s!"row{r}:text-scrolled-out-of-the-window-and-no-dots-mark-the-cut"
+            else
+              throw s!"row{r}:not-a-contiguous-run-of-the-text-with-dots-on-the-cut-sides"
 
 def judgeDraw (cfg : Cfg) (run : Nat) (th : Theme) (st : SpecSt) (o : DrawObs) (w h : Nat) : Except String Unit := do
   if o.rows.length != h then throw "wrong-number-of-rows"
